@@ -108,9 +108,7 @@ def applyEdit (c : Dag) : Edit → Dag.Res
   | .rep n op => c.replaceOp n op
   | .unwrap => c.unwrapNodes
   | .rmid => c.removeIdentity
-  | .group =>
-    -- `for node in self.node_dict["Output"]` is a KeyError on a circuit without any register
-    if dictHas c.nodeDict "Output" then c.groupOneQubitGates else (c, some .key)
+  | .group => c.groupOneQubitGates
   | .reg t sz => c.addRegister t sz
 
 /-! ### canonical state -/
